@@ -344,8 +344,32 @@ func e2eChild(c *vkit.Ctx) {
 		sc.ProcessLevel = true // run.Run with the reloader in its own process, reloaded with SIGHUP, stopped with SIGTERM
 	}
 	nReload := 2 + r.Intn(4)
+	if idx%9 == 0 {
+		// "queued chunks of the old pipelines are taken over", deterministically: the upstream refuses connections for a while,
+		// one key set sends everything at the start (backlog in memory and on disk), one valid reload happens during the
+		// refusal, and that key set never sends again - only the take-over by the new pipelines can deliver its chunks
+		// within this generation
+		sc.Outputs = 1
+		sc.MemWindow = 4
+		sc.ChunkBytes = 300
+		var cs []e2e.ConnSpec
+		for cn := 1; cn <= 2; cn++ {
+			one := e2e.ConnSpec{ID: cn}
+			for q := 1; q <= 12; q++ {
+				one.Recs = append(one.Recs, e2e.Rec{Conn: cn, Seq: q, App: "appA", Sev: 6, Host: "h1", Kind: "plain", Pad: 30})
+			}
+			cs = append(cs, one)
+		}
+		sc.Gens = []e2e.GenSpec{{Conns: cs, UpScript: [][]upstream.Step{{{Kind: "refuse", DelayMs: 400}}}, WaitAcked: true},
+			{UpScript: make([][]upstream.Step, 1), WaitAcked: true}}
+		nReload = 1
+	}
 	plan := []variant{}
 	for k := 0; k < nReload; k++ {
+		if k == 0 {
+			plan = append(plan, variants[idx%len(variants)]) // every kind of new configuration occurs in every tier
+			continue
+		}
 		plan = append(plan, variants[r.Intn(len(variants))])
 	}
 	c.LogCase(fmt.Sprintf("e2e:%d:%s", idx, fam))
